@@ -24,11 +24,12 @@ EXPLANATION = (
     'library stubbed: wave -> (frames, channels) C-order with symbolic frame and channel counts, IOError on a ragged count, npz '
     'key vs arr_0, HDF5 key vs first dataset in sorted depth-first order, soundfile subtype -> dtype, dtype applied as the last '
     'cast; (S4) wds_read_signal returns None for anything the inner calls raise.')
-BOUNDS = {'quick': 'file names up to 7 characters over the full character set; wave: any frame count and 1..4 channels (symbolic), sample width 1/2/4; all force_as values; 3 HDF5 trees',
+BOUNDS = {'quick': 'file names up to 7 characters over the full character set; wave: any frame count and 1..4 channels (symbolic), sample width 1/2/4; all force_as values; 3 HDF5 trees; .pt tensors of symbolic element kind and item size 1/2/4/8',
           'thorough': 'file names up to 10 characters (8 with the soundfile type set: longer bounds time out in z3\'s string solver)'}
 OUTSIDE = ['the container libraries themselves (central round-trip clause not claimed)', '8-bit soundfile subtypes (not among the containers the property lists)',
            'scipy wav backend (scipy is not installed: read_signal falls back to the stdlib wave reader, which is what is analysed)']
-ASSUMPTIONS = ['stub contracts of wave.open / np.load / h5py.File / soundfile.SoundFile / torch.load as documented by those libraries',
+ASSUMPTIONS = ['the regular expression the code uses is translated from Python\'s own parse tree (subset: literals, classes, \\w \\d \\s over ASCII, groups, alternation, * + ? {m,n}, leading ^); names are ASCII',
+               'stub contracts of wave.open / np.load / h5py.File / soundfile.SoundFile / torch.load as documented by those libraries',
                'np.frombuffer(readframes(n)) yields n*channels samples in file order']
 CONFIG_TIME_LIMIT = {'quick': 900, 'thorough': 3000}
 S = z3.StringSort()
